@@ -32,8 +32,8 @@ claimed = {
  "C12": ("stateless model checking of the rewritten real code with a lock-leak monitor: exhaustive enumeration of socket kind x provoked API failure (x second failure) followed by every other API call; configuration-error paths of the real tcp/tls/ipc/ws/wss wrappers run under the same monitor",
          "18 ways of making an API call fail (bad address, unknown scheme, address in use then corrected and retried on the same listener, refused then retried, handshake failure, asynchronous refusals, hook-closed pipe, peer drop, send/receive timeout, protocol state, unsupported operation, bad option/value, closed context/listener/dialer/pipe) on each of the 24 socket kinds, each followed by option calls, OpenContext, a new inbound connection that must attach, a receive and a send that must reach the peer, Dial and Listen; the shim mutex knows its owner, so a call that returns (or a thread that exits) while holding a library mutex, or re-locks one it holds, is reported at once; TLS/WSS Listen without config or certificate and bad-port/bad-path Listen/Dial on the real wrappers are followed by every option call, a retry and Close.",
          "DESIGN.md §6 C12"),
- "C13": ("stateless model checking of the rewritten real core: exhaustive connect / hook-close / peer-drop / app-close histories on listener and dialer side with a recording protocol decorator, id allocator started next to the 31-bit wrap, plus schedule exploration of attach vs drop",
-         "A recording decorator around the real xpub / xpair protocols logs AddPipe/RemovePipe, the pipe event hook logs Attaching/Attached/Detached and (as an explored choice) closes the pipe during Attaching or Attached; every history up to the stated depth is executed on the real core; per pipe the event grammar, AddPipe/RemovePipe pairing, id range/uniqueness until the Detached callback returned, and Address/Dialer/Listener/RemoteAddr are checked, and every later connection must still reach Attaching.",
+ "C13": ("stateless model checking of the rewritten real core: exhaustive connect / hook-close / peer-drop / app-close histories on listener and dialer side with a recording protocol decorator, id allocator started next to the 31-bit wrap, plus schedule exploration of attach vs drop; plus exhaustive enumeration on the unmodified code over the six real transports of every connect / peer-close / app-close / hook-close / second-peer operation list up to length 3 (4) on listening and dialling side, and of the pipe descriptions (addresses, TLS state, peer credentials) of both ends",
+         "A recording decorator around the real xpub / xpair protocols logs AddPipe/RemovePipe, the pipe event hook logs Attaching/Attached/Detached and (as an explored choice) closes the pipe during Attaching or Attached; every history up to the stated depth is executed on the real core; per pipe the event grammar, AddPipe/RemovePipe pairing, id range/uniqueness until the Detached callback returned, and Address/Dialer/Listener/RemoteAddr are checked, and every later connection must still reach Attaching. Engine E: 8 (24) socket kinds x 6 transports x all operation lists, every socket wrapped in a pass-through protocol recorder; pipe descriptions of three connections over two listeners compared on both ends (address cross-match, TLS version / certificate / exported keying material, ipc peer pid/uid/gid).",
          "DESIGN.md §6 C13"),
  "C14": ("stateless model checking of the rewritten real core under virtual time: exhaustive dial-outcome / loss / close histories x (ReconnectTime, MaxReconnectTime, DialAsynch) grid with the jitter draw as an explored choice; Close during an in-flight Dial over all schedules",
          "A scripted virtual dialer returns refused / handshake error / ok / ok-then-rejected; every outcome history up to the stated depth for 7 option settings and every jitter value in {0,0.5,0.999} runs on the real dialer with a virtual clock; each attempt's time stamp must equal the previous failure/loss instant plus a delay the back-off model allows (never below ReconnectTime, capped by MaxReconnectTime, reset after attach), a synchronous first failure is not retried, traffic reaches the new connection and no attempt starts after Close.",
@@ -76,7 +76,7 @@ claimed.update({
          "For all 12 protocol numbers (24 socket types) and both roles the first 8 bytes mangos writes are compared with the SP header; every single-byte deviation of the peer header (8x255) and every wrong-but-well-formed protocol number must be refused while a following good peer is accepted; frames mangos writes are parsed by an independent codec (8-byte BE length, 0x01 on IPC, header||body) and codec-written frames, split at every prefix position, must be delivered intact; WebSocket subprotocol negotiation and one-binary-frame-per-message are checked with a hand-written RFC 6455 endpoint.",
          "DESIGN.md §6 C15"),
 })
-ENGINE_OF = {"C01": "S+E", "C10": "S+E", "C15": "S+E", "C16": "S+E", "C19": "S+E", "C20": "E"}
+ENGINE_OF = {"C01": "S+E", "C10": "S+E", "C13": "S+E", "C15": "S+E", "C16": "S+E", "C19": "S+E", "C20": "E"}
 not_applicable = {}
 ALL = [f"C{i:02d}" for i in range(1, 21)]
 for pid in ALL:
